@@ -229,9 +229,15 @@ class ModuleVistor(NodeVisitor):
             if isinstance(base_node, ast.Subscript):
                 name_node = base_node.value
             
-            str_base = '.'.join(node2dottedname(name_node) or \
+            dottedname = node2dottedname(name_node)
+            if dottedname is None:
                 # Fallback on astor if the expression is unknown by node2dottedname().
-                [astor.to_source(base_node).strip()]) 
+                try:
+                    dottedname = [astor.to_source(base_node).strip()]
+                except ValueError:
+                    # i.e. an integer literal that exceeds the limit for integer string conversion
+                    dottedname = ['...']
+            str_base = '.'.join(dottedname)
                 
             # Store the base as string and as ast.expr in rawbases list.
             rawbases += [(str_base, base_node)]
